@@ -620,3 +620,74 @@ def extract_hash_combine():
                                                  "true" if pair_ok else "false", "true" if ok else "false")
     changed = write_if_changed(os.path.join(GEN, "HashCombine.lean"), content)
     return ok, note + (" (file rewritten)" if changed else "")
+
+
+# ---------------------------------------------------------------------------------------------------------
+# C12: `arguments::get(int i)` - the index arithmetic, bit for bit (int is 32 bits, size_type 64).
+
+def extract_positional_index():
+    """Generated/PosIndex.lean from include/nitro/options/arguments.hpp.  Returns (ok, note)."""
+    ok, body_term = True, "BitVec.signExtend 64 i"
+    try:
+        objs, err = ast_dump("src/options/parser.cpp", "nitro::options::arguments::get")
+        ms = [o for o in objs if o.get("kind") == "CXXMethodDecl" and o.get("name") == "get" and
+              (o.get("type") or {}).get("qualType", "").startswith("const std::string &(int)")]
+        if len(ms) != 1:
+            raise ValueError("%d methods arguments::get(int)" % len(ms))
+        params = [c["name"] for c in ms[0]["inner"] if c.get("kind") == "ParmVarDecl"]
+        if params != ["i"]:
+            raise ValueError("parameters are %s" % params)
+        stmts = [c for c in ms[0]["inner"] if c.get("kind") == "CompoundStmt"][0].get("inner", []) or []
+        if [x.get("kind") for x in stmts] != ["IfStmt", "ReturnStmt"]:
+            raise ValueError("body is not 'if (...) {...} return ...;'")
+        cond, then = stmts[0]["inner"][0], stmts[0]["inner"][1]
+        if len(stmts[0]["inner"]) != 2:
+            raise ValueError("the if has an else branch")
+        if cond.get("kind") != "BinaryOperator" or cond.get("opcode") != "<":
+            raise ValueError("condition is not a '<' comparison")
+        lhs, w = _bv_expr(cond["inner"][0], {"i"})
+        rhs, w2 = _bv_expr(cond["inner"][1], {"i"})
+        if lhs != "i" or w != 32 or w2 != 32 or not _ity(cond["inner"][0])[1]:
+            raise ValueError("condition does not compare the (signed 32-bit) index")
+        tst = then.get("inner", []) or []
+        if then.get("kind") != "CompoundStmt" or len(tst) != 1 or tst[0].get("kind") != "CompoundAssignOperator":
+            raise ValueError("then-branch is not one compound assignment")
+        ca = tst[0]
+        if ca.get("opcode") != "+=" or (ca["inner"][0].get("referencedDecl") or {}).get("name") != "i":
+            raise ValueError("then-branch is not 'i += ...'")
+        for key in ("computeLHSType", "computeResultType"):
+            if (ca.get(key) or {}).get("qualType") != "int":
+                raise ValueError("compound assignment computes in %s" % (ca.get(key) or {}).get("qualType"))
+        add = ca["inner"][1]
+        if add.get("kind") != "CXXStaticCastExpr" or (add.get("type") or {}).get("qualType") != "int":
+            raise ValueError("the addend is not static_cast<int>(...)")
+        calls = _find(add, lambda x: x.get("kind") == "CXXMemberCallExpr", [])
+        mem = _find(add, lambda x: x.get("kind") == "MemberExpr", [])
+        if len(calls) != 1 or [m.get("name") for m in mem] != ["size", "positionals_"]:
+            raise ValueError("the addend is not positionals_.size()")
+        ret = stmts[1]["inner"][0]
+        while ret.get("kind") in ("ImplicitCastExpr", "ParenExpr", "ExprWithCleanups"):
+            ret = ret["inner"][0]
+        rmem = _find(ret["inner"][0], lambda x: x.get("kind") == "MemberExpr", [])
+        if ret.get("kind") != "CXXMemberCallExpr" or [m.get("name") for m in rmem] != ["at", "positionals_"]:
+            raise ValueError("the result is not positionals_.at(...)")
+        arg = ret["inner"][1]
+        if not (arg.get("kind") == "ImplicitCastExpr" and arg.get("castKind") == "IntegralCast"):
+            raise ValueError("the argument of at() is not an integral conversion of the index")
+        a, wa = _bv_expr(arg["inner"][0], {"i"})
+        if a != "i" or wa != 32 or not _ity(arg["inner"][0])[1]:
+            raise ValueError("at() is not given the (signed 32-bit) index")
+        body_term = "BitVec.signExtend 64 (if BitVec.slt i %s then i + (BitVec.setWidth 32 size) else i)" % rhs
+        note = "positional index: at((size_t)(i < %s ? i + (int)size : i))" % rhs
+    except (ValueError, KeyError, IndexError, json.JSONDecodeError) as e:
+        ok = False
+        note = "positional index: extractor no longer recognises the code: " + str(e)
+    content = ("-- written by vlib/extract.py from include/nitro/options/arguments.hpp on every run\n"
+               "namespace NitroVerif.Generated\n"
+               "/-- `arguments::get(int i)`: the argument handed to `positionals_.at(...)`, bit for bit\n"
+               "(`int` has 32 bits, `size_type` 64; the conversion of a signed index is a sign extension). -/\n"
+               "def getIndexSrc (size : BitVec 64) (i : BitVec 32) : BitVec 64 := %s\n"
+               "def posIndexExtracted : Bool := %s\n"
+               "end NitroVerif.Generated\n") % (body_term, "true" if ok else "false")
+    changed = write_if_changed(os.path.join(GEN, "PosIndex.lean"), content)
+    return ok, note + (" (file rewritten)" if changed else "")
